@@ -48,7 +48,11 @@ m = {
     }],
     "checks": checks,
     "not_applicable": na,
-    "notes": "Exit codes of ./check: 0 held, 1 violation (VIOLATION line), 2 undecided, 3 checker error. Fix commits in /repo are listed in known_findings.json.",
+    "notes": "Exit codes of ./check: 0 held, 1 violation (VIOLATION line), 2 undecided, 3 checker error. Fix commits in /repo are listed in known_findings.json. "
+             "quick = every obligation at the every-change budget (z3 resource counts, deterministic) plus the quick-size bounded oracles; thorough = the same obligations with the escalated budget for whatever "
+             "the first budget leaves open, and the larger bounded corpora. Obligations are generated from /repo's working tree on every run; nothing is cached. "
+             "lean/Pigeonhole.lean (two facts of finite arithmetic that contracts state as preconditions) is re-checked by C02, C11 and C13 when `lean` is on PATH. "
+             "No hooks in /repo: contracts are sidecar files.",
 }
 json.dump(m, open("/verif/MANIFEST.json", "w"), indent=1)
 print("claimed:", sorted(c["property_id"] for c in checks))
